@@ -5,6 +5,8 @@ import Dnp3.Proofs.C09Fields
 import Dnp3.Proofs.C09Walk
 import Dnp3.Proofs.C09Iter
 import Dnp3.Proofs.C09Builder
+import Dnp3.Proofs.C09Attr
+import Dnp3.Proofs.C09AttrOrder
 /-!
 # C09 — What one side encodes, the other side's parser decodes to the same objects
 -/
@@ -432,5 +434,241 @@ theorem command_request_roundtrip_or_write_error (cap : Nat) (fir fin con uns : 
 
 example : knownFunction 5 = true ∧ isResponseFn 5 = false ∧ (41, 2) ∈ commandVariations ∧
     ([(7, [1, 0, 0])] : List CmdItem) ≠ [] := by decide
+
+/-! ## device attributes (group 0): values, lists, objects, the outstation's READ response, the master's WRITE request
+
+Model `Dnp3.Model.Attr` (tied to the code by the regenerated `Gen/Attrs` and by differential execution, engine
+`attr`).  Findings: D27 (single-attribute write without a cursor transaction) and D29 (one-octet INT read back
+zero-extended) are repaired in the library and the statements below hold in full; D30 (the master's builder takes
+the variations 0 and 254) is open: `build_request_parses_back_partial` + `build_request_parses_back_counterexample`. -/
+section Attr
+open Dnp3.Attr Dnp3.Gen.Attrs
+/- `Denotes m o` (Proofs/C09Attr): the decoded object `o` is what the database `m` holds: set and variation are
+   octets, the variation is neither 0 nor 254, and either (variation 255) the value is a list whose iteration gives
+   the set's (variation, writable) pairs in the database's order, or the value is the value stored under
+   (set, variation). -/
+open Dnp3.Proofs.C09Attr (Denotes)
+
+/-- the regenerated type-code tables are each other's inverse and agree with the constants the object walk uses -/
+theorem attr_type_codes_consistent :
+    (∀ dt : DataType, typeOfCode dt.code = some dt) ∧ (∀ p ∈ codeTable, p.2.code = p.1) ∧
+    DataType.visibleString.code = attrVisibleString ∧ DataType.unsignedInt.code = attrUnsignedInt ∧
+    DataType.signedInt.code = attrSignedInt ∧ DataType.floatingPoint.code = attrFloatingPoint ∧
+    DataType.octetString.code = attrOctetString ∧ DataType.bitString.code = attrBitString ∧
+    DataType.dnp3Time.code = attrDnp3Time ∧ DataType.attrList.code = attrAttrList ∧
+    DataType.extAttrList.code = attrExtAttrList := by
+  refine ⟨fun dt => by cases dt <;> rfl, by decide, ?_⟩
+  decide
+
+/-- what the translator read out of `get_list_encoding`, `AttrValue::parse`, `parse_attr_list`, `VariationListIter`,
+    `Selected::all`, `Variation::create`, `UInt::new` / `Int::new`: writer and parser use the same list constants -/
+theorem attr_translator_shape_checks :
+    listEntryOctets = 2 ∧ extListBias = 256 ∧ parseExtListBias = extListBias ∧ parseListModulus = listEntryOctets ∧
+    iterEntryOctets = listEntryOctets ∧ propWritableBit = 1 ∧ listVariation = 255 ∧ reservedVars = [0, 254, 255] ∧
+    selectAllFirst = 0 ∧ selectAllLast = 253 ∧ maxSelected = 32 ∧
+    uintWidthsShapeOk = true ∧ intWidthsShapeOk = true := by decide
+
+/-- the default set: every typed variation of `AnyAttribute::try_from` is the `variation()` of a variant of the
+    per-kind enum whose `extract` demands that type; the variations that may be defined writable are strings -/
+theorem default_set_table_consistent :
+    (∀ p ∈ defaultSetTypes, ∃ q ∈ kindVariations, q.2.2 = p.1 ∧ (q.1, p.2) ∈ kindType) ∧
+    (∀ v ∈ writableVars, (v, DataType.visibleString) ∈ defaultSetTypes) ∧
+    (defaultSetTypes.map (·.1)).Nodup ∧ (∀ p ∈ defaultSetTypes, p.1 < 256) := by decide +kernel
+
+/-! ### attribute values (`OwnedAttrValue::write`, `AttrValue::parse`) -/
+
+/-- parse (encode v) = v, consuming exactly the encoded octets: for every value an `OwnedAttrValue` can hold -/
+theorem attr_roundtrip (v : Value) (img rest : List Nat) (hv : v.WellFormed) (h : v.image = some img) :
+    parseValue (img ++ rest) = .ok (v, rest) :=
+  @Dnp3.Proofs.C09AttrValue.attr_roundtrip v img rest hv h
+
+/-- an owned value has no encoding exactly when it is a string / octet string / bit string longer than 255 octets -/
+theorem attr_image_none_iff (v : Value) (hv : v.WellFormed) : v.image = none ↔ 255 < valueLen v :=
+  @Dnp3.Proofs.C09AttrValue.attr_image_none_iff v hv
+
+/-- the list of variations round-trips for EVERY length the encoding can express (0..255 entries), across the
+    127/128 boundary between the plain and the extended list; the decoded `raw` does not depend on what follows -/
+theorem attr_list_roundtrip (items : List (Nat × Bool)) (hn : items.length ≤ 255) :
+    ∃ img raw, listImage items = some img ∧ img.length = 2 + 2 * items.length ∧
+      (∀ rest : List Nat, parseValue (img ++ rest) = .ok (.list raw, rest)) ∧ iterList raw = items :=
+  @Dnp3.Proofs.C09AttrValue.attr_list_roundtrip items hn
+
+/-- beyond 255 entries there is no encoding (`get_list_encoding` = None: nothing is written) -/
+theorem attr_list_unencodable (items : List (Nat × Bool)) (h : 255 < items.length) : listImage items = none :=
+  @Dnp3.Proofs.C09AttrValue.attr_list_unencodable items h
+
+/-- the boundaries of `get_list_encoding` -/
+theorem list_encoding_boundaries :
+    listEncoding 0 = some (0, .attrList) ∧ listEncoding 127 = some (254, .attrList) ∧
+    listEncoding 128 = some (0, .extAttrList) ∧ listEncoding 129 = some (2, .extAttrList) ∧
+    listEncoding 255 = some (254, .extAttrList) ∧ listEncoding 256 = none :=
+  @Dnp3.Proofs.C09AttrValue.list_encoding_boundaries 
+
+/-- for every n: the length octet written is what the parser turns back into 2n octets -/
+theorem list_encoding_exact (n len : Nat) (dt : DataType) (h : listEncoding n = some (len, dt)) :
+    len ≤ 255 ∧ ((dt = .attrList ∧ len = 2 * n) ∨ (dt = .extAttrList ∧ len + parseExtListBias = 2 * n)) :=
+  @Dnp3.Proofs.C09AttrValue.list_encoding_exact n len dt h
+
+/-- the parser accepts a value only if the octets present are exactly what the type code and the length octet
+    imply, and conversely accepts every such octet string; the decoded value is a function of those octets -/
+theorem attr_parse_accepts_only_exact (bs rest : List Nat) (v : Value) :
+    parseValue bs = .ok (v, rest) ↔
+      ∃ t len dt d, bs = t :: len :: (d ++ rest) ∧ typeOfCode t = some dt ∧ impliedLen dt len = some d.length ∧
+        (dt = .visibleString → validUtf8 d = true) ∧ v = decodePayload dt len d :=
+  @Dnp3.Proofs.C09AttrValue.attr_parse_accepts_only_exact bs rest v
+
+/-- the typed value parser and the value-less `attrValue` of the object walk (Model/ObjectGrammar) accept the same
+    octet strings, consume the same octets and report the same error -/
+theorem parseValue_agrees_with_walk (bs : List Nat) : (parseValue bs).map (·.2) = attrValue bs :=
+  @Dnp3.Proofs.C09AttrValue.parseValue_agrees_with_walk bs
+
+
+example : (Value.int (-1)).WellFormed ∧ (Value.int (-1)).image = some [3, 1, 255] ∧
+    parseValue [3, 1, 255] = .ok (.int (-1), []) := ⟨by simp [Value.WellFormed], by decide, rfl⟩
+example : (Value.ostr (List.replicate 256 0)).image = none := by
+  simp only [Value.image, List.length_replicate, show ¬ (256 ≤ 255) by omega, if_false]
+example : parseValue [255, 1, 0] = .error (.badAttrListLength 257) ∧ parseValue [2, 3, 1, 2, 3] = .error (.badIntegerLength 3) :=
+  ⟨rfl, rfl⟩
+
+/-! ### attribute objects under the real header walk (`parseOne` / `walk` of Model/ObjectGrammar) -/
+
+/-- the parser model of Model/Attr for one group-0 object (`parseObj`) is the real header walk restricted to that
+    header form: whenever the typed value parser accepts the value, `parseOne` yields the record whose payload is exactly
+    the value's octets -/
+theorem parseOne_attr_object (zls : Bool) (set var : Nat) (img rest : List Nat) (v : Value)
+    (hs : set < 256) (hvar : var < 256) (h0 : var ≠ 0) (h254 : var ≠ 254)
+    (hv : parseValue (img ++ rest) = .ok (v, rest)) :
+    parseOne false zls (objHeader set var ++ img ++ rest) =
+      .ok (⟨.wild 0 var, .range false set set, .attr, img⟩, rest) ∧
+    parseObj (objHeader set var ++ img ++ rest) = .ok (⟨set, var, v⟩, rest) :=
+  @Dnp3.Proofs.C09AttrWalk.parseOne_attr_object zls set var img rest v hs hvar h0 h254 hv
+
+/-- a sequence of attribute objects: the real walk accepts the concatenation and yields one record per object -/
+theorem walk_attr_objects (zls : Bool) (objs : List (Obj × List Nat))
+    (h : ∀ p ∈ objs, p.1.set < 256 ∧ p.1.var < 256 ∧ p.1.var ≠ 0 ∧ p.1.var ≠ 254 ∧
+          ∀ rest, parseValue (p.2 ++ rest) = .ok (p.1.value, rest)) :
+    walk false zls (objs.flatMap fun p => objHeader p.1.set p.1.var ++ p.2) =
+      .ok (objs.map fun p => ⟨.wild 0 p.1.var, .range false p.1.set p.1.set, .attr, p.2⟩) ∧
+    parseObjs (objs.flatMap fun p => objHeader p.1.set p.1.var ++ p.2) = .ok (objs.map (·.1)) :=
+  @Dnp3.Proofs.C09AttrWalk.walk_attr_objects zls objs h
+
+/-! ### the outstation's READ response (`Selection::write_all`, `write_attr_list`, `HeaderWriter::write_attribute`)
+
+`writeAll m cap sel buf` is one call of `write_all` into a cursor of capacity `cap` already holding `buf`;
+`Dnp3.Attr.allObjects m sel` is what the READ denotes, independent of any capacity. -/
+
+/-- `write_all`: for every database, capacity, selection queue and prior cursor content, the fragment is the prior
+    content plus whole objects: a prefix of what the READ denotes; the remaining queue denotes exactly the rest
+    (nothing lost, nothing duplicated, nothing reordered, no partial object) -/
+theorem writeAll_exact (m : SetMap) (cap : Nat) (sel : List Selected) (buf : List Nat) :
+    ∃ objs : List (List Nat), (writeAll m cap sel buf).1 = buf ++ objs.flatten ∧
+      Dnp3.Attr.allObjects m sel = objs ++ Dnp3.Attr.allObjects m (writeAll m cap sel buf).2 :=
+  @Dnp3.Proofs.C09AttrWriter.writeAll_exact m cap sel buf
+
+/-- the cursor never exceeds its capacity -/
+theorem writeAll_within_capacity (m : SetMap) (cap : Nat) (sel : List Selected) (buf : List Nat)
+    (h : buf.length ≤ cap) : (writeAll m cap sel buf).1.length ≤ cap :=
+  @Dnp3.Proofs.C09AttrWriter.writeAll_within_capacity m cap sel buf h
+
+/-- the writer stops only because the next step does not fit: if something remains, the step for the head of the
+    remaining queue is `blocked` at the final cursor position -/
+theorem writeAll_stops_only_when_blocked (m : SetMap) (cap : Nat) (sel : List Selected) (buf : List Nat)
+    (s' : Selected) (rest' : List Selected) (h : (writeAll m cap sel buf).2 = s' :: rest') :
+    stepFor m cap (writeAll m cap sel buf).1.length s'.set s'.cur = .blocked :=
+  @Dnp3.Proofs.C09AttrWriter.writeAll_stops_only_when_blocked m cap sel buf s' rest' h
+
+/-- a series of fragments (any capacities): the fragments are whole objects, their concatenation is a prefix of what
+    the READ denotes, and the final queue denotes exactly what has not been sent -/
+theorem series_exact (m : SetMap) (caps : List Nat) (sel : List Selected) :
+    ∃ objss : List (List (List Nat)), (series m caps sel).1 = objss.map List.flatten ∧
+      Dnp3.Attr.allObjects m sel = objss.flatten ++ Dnp3.Attr.allObjects m (series m caps sel).2 :=
+  @Dnp3.Proofs.C09AttrWriter.series_exact m caps sel
+
+/-- progress: with a capacity that can hold any single object (517 octets), a fragment written into an empty cursor
+    either completes the READ or carries at least one object -/
+theorem writeAll_progress (m : SetMap) (cap : Nat) (sel : List Selected) (hcap : 517 ≤ cap)
+    (h : (writeAll m cap sel []).2 ≠ []) : (writeAll m cap sel []).1 ≠ [] :=
+  @Dnp3.Proofs.C09AttrWriter.writeAll_progress m cap sel hcap h
+
+/-- `define` keeps the database well-formed and records exactly the new attribute -/
+theorem define_preserves_wf (m m' : SetMap) (set var : Nat) (w : Bool) (v : Value)
+    (hm : m.WF) (hs : set < 256) (hvar : var < 256) (hv : v.WellFormed) (h : define m set var w v = .ok m') :
+    m'.WF ∧ m'.get set var = some ⟨var, w, v⟩ ∧
+      ∀ s x, (s, x) ≠ (set, var) → m'.get s x = m.get s x :=
+  @Dnp3.Proofs.C09AttrWriter.define_preserves_wf m m' set var w v hm hs hvar hv h
+
+/-- `define` refuses a variation that is already there: a defined attribute is never overwritten -/
+theorem define_never_overwrites (m : SetMap) (set var : Nat) (w : Bool) (v : Value) (e : Entry)
+    (h : m.get set var = some e) : ∃ err, define m set var w v = .error err :=
+  @Dnp3.Proofs.C09AttrWriter.define_never_overwrites m set var w v e h
+
+
+/-- `Selected::all(set)` (variations 0..=253 visited with `get`) denotes exactly the set's entries, in the database's
+    (ascending) order, each once; entries whose value has no encoding are left out -/
+theorem selObjects_all (m : SetMap) (hm : m.WF) (set : Nat) :
+    selObjects m (Selected.all set) =
+      ((m.entries set).getD []).filterMap fun e => e.value.image.map (objHeader set e.var ++ ·) :=
+  @Dnp3.Proofs.C09AttrOrder.selObjects_all m hm set
+
+/-- the list object (g0v255) enumerates the same entries in the same order -/
+theorem objectFor_list (m : SetMap) (set : Nat) (es : List Entry) (h : m.entries set = some es) :
+    objectFor m set listVariation =
+      (listImage (es.map fun e => (e.var, e.writable))).map (objHeader set listVariation ++ ·) :=
+  @Dnp3.Proofs.C09AttrOrder.objectFor_list m set es h
+
+
+/-- ONE FRAGMENT.  For every well-formed attribute database, every selection queue and every
+    capacity, the fragment `write_all` produces into an empty cursor is accepted by the library's
+    parser, consuming every octet, as a sequence of group-0 objects each of which is what the
+    database holds (`Denotes`): no fragment ends inside an object. -/
+theorem response_fragment_parses_back (m : SetMap) (hm : m.WF) (cap : Nat) (sel : List Selected) (zls : Bool)
+    (hsel : ∀ s ∈ sel, s.set < 256 ∧ s.cur < 256) :
+    ∃ objs : List Obj, parseObjs (writeAll m cap sel []).1 = .ok objs ∧ (∀ o ∈ objs, Denotes m o) ∧
+      ∃ recs, walk false zls (writeAll m cap sel []).1 = .ok recs ∧ recs.length = objs.length :=
+  @Dnp3.Proofs.C09Attr.response_fragment_parses_back m hm cap sel zls hsel
+
+/-- A SERIES of fragments at any capacities: every fragment is accepted by the parser as whole
+    objects the database denotes, the object images of the fragments concatenated are a prefix of
+    what the READ denotes, and when the series is complete they are all of it. -/
+theorem response_series_parses_back (m : SetMap) (hm : m.WF) (caps : List Nat) (sel : List Selected) (zls : Bool)
+    (hsel : ∀ s ∈ sel, s.set < 256 ∧ s.cur < 256) :
+    (∀ frag ∈ (series m caps sel).1, ∃ objs : List Obj, parseObjs frag = .ok objs ∧ (∀ o ∈ objs, Denotes m o) ∧
+        ∃ recs, walk false zls frag = .ok recs ∧ recs.length = objs.length) ∧
+    (∃ rest, (Dnp3.Attr.allObjects m sel).flatten = ((series m caps sel).1).flatten ++ rest) ∧
+    ((series m caps sel).2 = [] → ((series m caps sel).1).flatten = (Dnp3.Attr.allObjects m sel).flatten) :=
+  @Dnp3.Proofs.C09Attr.response_series_parses_back m hm caps sel zls hsel
+
+example : Dnp3.Proofs.C09AttrWriter.exMap.WF ∧
+    (∀ s ∈ [Selected.all 1, Selected.single 1 255], s.set < 256 ∧ s.cur < 256) ∧
+    (writeAll Dnp3.Proofs.C09AttrWriter.exMap 12 [Selected.all 1, Selected.single 1 255] []).1 = [0, 5, 0, 1, 1, 2, 1, 42] := by
+  refine ⟨by simp [Dnp3.Proofs.C09AttrWriter.exMap, SetMap.WF, Entry.WF, Value.WellFormed, reservedVars], by decide, by decide +kernel⟩
+
+/-! ### the master's WRITE request (`Headers::add_attribute`) -/
+
+/-- THE MASTER'S REQUEST.  FULL statement (false for the unchanged code, finding D30: `Headers::add_attribute`
+    takes the variations 0 and 254, see `build_request_parses_back_counterexample`):
+      ∀ cap attrs body, (∀ o ∈ attrs, o.set < 256 ∧ o.var < 256 ∧ o.value.WellFormed) →
+        buildWrite cap attrs = .ok body → parseObjs body = .ok attrs
+    proved for attributes whose variation is neither 0 nor 254: a request that was built is accepted by the
+    parser, consuming every octet, as exactly the attributes given, in order. -/
+theorem build_request_parses_back_partial (cap : Nat) (attrs : List Obj) (body : List Nat)
+    (hw : ∀ o ∈ attrs, o.set < 256 ∧ o.var < 256 ∧ o.var ≠ 0 ∧ o.var ≠ 254 ∧ o.value.WellFormed)
+    (h : buildWrite cap attrs = .ok body) :
+    2 + body.length ≤ cap ∧ parseObjs body = .ok attrs ∧
+    ∃ recs, walk false false body = .ok recs ∧ recs.length = attrs.length :=
+  @Dnp3.Proofs.C09Attr.build_request_parses_back_partial cap attrs body hw h
+
+/-- the counterexample (replayed on the real code by engine `attr`, witness findings/D30.ops): variation 0 is built
+    but the parser rejects it as an unknown object … -/
+theorem build_request_parses_back_counterexample :
+    buildWrite 2048 [⟨1, 0, .uint 42⟩] = .ok [0, 0, 0, 1, 1, 2, 1, 42] ∧
+    parseObj [0, 0, 0, 1, 1, 2, 1, 42] = .error (.unknownGroupVariation 0 0) ∧
+    parseOne false false [0, 0, 0, 1, 1, 2, 1, 42] = .error (.unknownGroupVariation 0 0) ∧
+    
+    buildWrite 2048 [⟨1, 254, .uint 42⟩] = .ok [0, 254, 0, 1, 1, 2, 1, 42] ∧
+    parseOne false false [0, 254, 0, 1, 1, 2, 1, 42] = .ok (⟨.fixed 0 254, .range false 1 1, .none, []⟩, [2, 1, 42]) :=
+  @Dnp3.Proofs.C09AttrWalk.build_request_parses_back_counterexample 
+
+end Attr
 
 end Dnp3.Props.C09
